@@ -1,260 +1,254 @@
 """C03 -- reported outcome is sound: success means nothing raised; failures never masked."""
 
-import ast
-
-from ..astutil import FUNC_TYPES, attr_chain, dotted, norm, walk_shallow
-from ..cfg import live_nodes, node_calls
-from ..loader import AnalysisError
-from . import runmodel
-from .common import literal_elements, RUNTEST, TESTCASE, cfg_of, has_kw, kw_value, nodes_calling, own_method
-from .runmodel import RERAISE, SENT, USER_EXC
+from ..absint import TRUE, heap_key, is_handle
+from . import casemodel as cm
+from .common import RUNTEST, TESTCASE
 
 EXPLANATION = (
-    "R-SUCCESS-GUARD: in the abstract run of RunTest (see C01; user code symbolic) no exit state "
-    "combines a delivered addSuccess with a caught user exception or a forced failure, and every "
-    "non-framework exit on which user code raised reports through a handler. R-HANDLER-TABLE: the "
-    "classes of TestCase.exception_handlers are resolved through the parsed class tables: no entry is "
-    "shadowed by an earlier superclass entry, the last entry is exactly Exception (so other "
-    "BaseExceptions fall to last_resort and are re-raised), each handler resolves to a _report_* whose "
-    "body calls the result method of the same kind exactly once, last_resort is _report_error and "
-    "onException's no-traceback list equals the three signal classes. R-FIRST-MATCH: the dispatch walks "
-    "self.handlers in list order with isinstance and leaves at the first match. R-NEVER-MASKED: "
-    "the dispatch must inspect the whole recorded list (one-element accessors let a later skip mask an "
-    "earlier failure). R-EXPECT-FORCES: expectThat's mismatch arm sets force_failure and cannot raise; "
-    "the forced failure is raised through the recorder before the success decision."
+    "TestCase.run is followed as written (ttsa.rules.casemodel: real __init__, run, RunTest, the result adapter, the handler "
+    "table built by TestCase.__init__ and the _report_* methods it names are interpreted by ttsa.objects); the user's setUp / "
+    "test / tearDown / cleanup return or raise exceptions of every kind the handler table distinguishes (failure, error, skip, "
+    "expected failure, unexpected success, KeyboardInterrupt) and of user-defined subclasses of those. R-SUCCESS-GUARD: over all "
+    "combinations of stage outcomes the run reports addSuccess iff no stage raised; with force_failure set, or after an "
+    "expectThat mismatch (the matcher is scripted: match() returns a mismatch), the test goes on, no exception leaves "
+    "expectThat, and the finished test is reported as a failure. R-HANDLER-TABLE: one exception of each kind in each stage "
+    "gives exactly the outcome its type maps to; subclasses follow their base. R-FIRST-MATCH: a (class, handler) pair the user "
+    "puts first in exception_handlers is called instead of the built-in one, one put last is preceded by the built-in entries "
+    "that match; the handler receives the case, the result and the exception. R-NEVER-MASKED: for every ordered pair of stages "
+    "(same stage: a MultipleExceptions; two cleanups), a failure / error raised first and a skip / expected failure raised later "
+    "must still give an outcome that makes the run unsuccessful. R-EXPECT-FORCES: see R-SUCCESS-GUARD (forced failure) -- "
+    "the forced failure is raised last, after the cleanups, and is reported as a failure, not as an error."
 )
 
-BUILTIN_BASES = {
-    "Exception": "BaseException", "AssertionError": "Exception", "KeyboardInterrupt": "BaseException",
-    "SystemExit": "BaseException", "ValueError": "Exception", "TypeError": "Exception", "BaseException": None,
-}
-KIND_OF_HANDLER = {
-    "_report_skip": "addSkip", "_report_failure": "addFailure", "_report_expected_failure": "addExpectedFailure",
-    "_report_unexpected_success": "addUnexpectedSuccess", "_report_error": "addError",
-}
+STAGES4 = ("setUp", "test", "tearDown", "cleanup")
+BAD, SOFT = ("fail", "error"), ("skip", "xfail")
+
+
+def _script(raising, extra_test=(), extra=None):
+    """``raising``: stage -> kind (or an exception value); ``extra``: stage -> actions done before it raises."""
+    script = {"setUp": [("call", "addCleanup", [cm.user("cleanup")], [])], "test": list(extra_test), "tearDown": [], "cleanup": []}
+    for stage, actions in (extra or {}).items():
+        script[stage] = script[stage] + list(actions)
+    for stage, kind in raising.items():
+        script[stage].append(("raise", cm.raised(kind, stage) if isinstance(kind, str) else kind))
+    return script
+
+
+def _w(raising):
+    return ", ".join(f"{s} raises {k if isinstance(k, str) else 'several'}" for s, k in raising.items()) or "nothing raises"
+
+
+def check_success_guard(ctx, case):
+    Q = f"{TESTCASE}:TestCase.run"
+    kinds = (None, "fail", "error", "skip", "xfail", "uxsuccess")
+    combos = []
+    for su in kinds:
+        if su is not None:
+            combos.append({"setUp": su})
+            continue
+        for te in kinds:
+            for td in ((None, "error", "skip") if ctx.tier == "thorough" else (None, "skip")):
+                for cl in ((None, "fail", "xfail") if ctx.tier == "thorough" else (None, "xfail")):
+                    combos.append({k: v for k, v in (("test", te), ("tearDown", td), ("cleanup", cl)) if v is not None})
+    if ctx.tier != "thorough":
+        combos = [c for i, c in enumerate(combos) if i % 2 == 0 or not c]
+    for raising in combos:
+        d, runs = cm.run_case(ctx, _script(raising))
+        problems = set()
+        for r in runs:
+            ocs = cm.outcomes(r)
+            if (ocs == ["addSuccess"]) != (not raising):
+                problems.add(f"the outcomes are {ocs}" + ("; expected a success" if not raising else ": a stage raised, yet the test is reported as a success"))
+            if len(ocs) != 1:
+                problems.add(f"{len(ocs)} outcomes are reported ({ocs})")
+        ctx.check("R-SUCCESS-GUARD", f"[{_w(raising)}] addSuccess iff nothing raised", case.node, bool(runs) and not problems, "; ".join(sorted(problems)) or "no path of run() was followed to its end",
+                  examined=len(runs), construct=f"{Q}::success-guard {_w(raising)}")
+    ctx.floor("R-SUCCESS-GUARD", 12, "stage outcome combinations")
+
+
+def check_forced(ctx, case):
+    Q = f"{TESTCASE}:TestCase.expectThat"
+    M, MM = ("wobj", "matcher"), ("wobj", "mismatch")
+    answers = {"matcher.match": [("val", MM)], "mismatch.get_details": [("val", ("kwdict", ()))], "mismatch.describe": [("val", ("const", "it differs"))]}
+    expect = ("call", "expectThat", [("sym", "matchee"), M], [])
+    for where in ("setUp", "test", "tearDown", "cleanup"):
+        script = _script({})
+        script[where] = script[where] + [expect, ("call", "addCleanup", [cm.user("after_expect")], [])]
+        d, runs = cm.run_case(ctx, script, answers=answers)
+        problems = set()
+        for r in runs:
+            ocs = cm.outcomes(r)
+            if ocs != ["addFailure"]:
+                problems.add(f"an expectThat mismatch in {where} gives the outcomes {ocs}; expected one failure once the test has finished")
+            names = cm.names(r, ("user.",))
+            if "user.after_expect" not in names:
+                problems.add(f"the code after the failed expectThat does not run (user code called: {names}): expectThat must not raise")
+            if where != "cleanup" and names[-1:] != ["user.after_expect"] and "user.cleanup" not in names:
+                problems.add("the later stages do not run after the failed expectation")
+            if r.kind != "val":
+                problems.add(f"run() raises {r.value!r}")
+        ctx.check("R-EXPECT-FORCES", f"an expectThat mismatch in {where}: the stage goes on, the finished test is a failure", case.node, bool(runs) and not problems,
+                  "; ".join(sorted(problems)) or "no path", examined=len(runs), construct=f"{Q}::mismatch in {where}")
+    # a matching expectThat changes nothing
+    d, runs = cm.run_case(ctx, _script({}, extra_test=[expect]), answers={"matcher.match": [("val", ("const", None))]})
+    bad = [cm.outcomes(r) for r in runs if cm.outcomes(r) != ["addSuccess"] or r.kind != "val"]
+    ctx.check("R-EXPECT-FORCES", "an expectThat that matches leaves the test a success", case.node, bool(runs) and not bad, f"the outcomes are {bad}", examined=len(runs), construct=f"{Q}::match")
+    # force_failure set directly, alone and with the same / later stages raising soft exceptions
+    for where, raising in (("test", {}), ("test", {"tearDown": "skip"}), ("test", {"cleanup": "xfail"}), ("test", {"tearDown": "error"}), ("setUp", {"setUp": "skip"}), ("setUp", {"setUp": "error"}),
+                           ("test", {"test": "skip"}), ("cleanup", {})):
+        d, runs = cm.run_case(ctx, _script(raising, extra={where: [("set", "force_failure", TRUE)]}))
+        problems = set()
+        for r in runs:
+            ocs = cm.outcomes(r)
+            if len(ocs) != 1 or ocs[0] not in cm.UNSUCCESSFUL:
+                problems.add(f"with force_failure set in {where} ({_w(raising)}) the outcomes are {ocs}; expected one that makes the run unsuccessful")
+            if not raising and ocs != ["addFailure"]:
+                problems.add(f"the forced failure is reported as {ocs}; expected a failure")
+        ctx.check("R-EXPECT-FORCES", f"[force_failure set in {where}; {_w(raising)}] the finished test is unsuccessful", case.node, bool(runs) and not problems, "; ".join(sorted(problems)) or "no path",
+                  examined=len(runs), construct=f"{RUNTEST}:RunTest._run_core::forced in {where}, {_w(raising)}")
+
+
+def check_type_mapping(ctx, case):
+    Q = f"{TESTCASE}:TestCase.run"
+    kinds = ["fail", "error", "skip", "xfail", "uxsuccess", "skip-subclass", "fail-subclass", "xfail-subclass", "error-subclass"]
+    for kind in kinds:
+        stages = STAGES4 if ctx.tier == "thorough" or kind in ("fail", "skip", "xfail") else ("test", "cleanup")
+        for stage in stages:
+            d, runs = cm.run_case(ctx, _script({stage: kind}))
+            want = [cm.KINDS[kind][1]]
+            problems = {f"{cm.KINDS[kind][0]} raised by {stage} gives the outcomes {cm.outcomes(r)}; expected {want}" for r in runs if cm.outcomes(r) != want}
+            problems |= {f"run() raises {r.value!r}" for r in runs if r.kind != "val"}
+            ctx.check("R-HANDLER-TABLE", f"{cm.KINDS[kind][0]} raised by {stage} is reported with {want[0]}", case.node, bool(runs) and not problems, "; ".join(sorted(problems)) or "no path",
+                      examined=len(runs), construct=f"{Q}::maps {kind} in {stage}")
+    # exceptions made without arguments map like the others
+    for kind in ("skip", "xfail", "fail", "error"):
+        d, runs = cm.run_case(ctx, _script({"test": cm.raised(kind, "test", args=())}))
+        want = [cm.KINDS[kind][1]]
+        problems = {f"{cm.KINDS[kind][0]}() (no arguments) raised by the test gives the outcomes {cm.outcomes(r)}; expected {want}" for r in runs if cm.outcomes(r) != want or r.kind != "val"}
+        ctx.check("R-HANDLER-TABLE", f"{cm.KINDS[kind][0]}() raised without arguments is reported with {want[0]}", case.node, bool(runs) and not problems, "; ".join(sorted(problems)) or "no path",
+                  examined=len(runs), construct=f"{Q}::maps {kind} without arguments")
+    # exceptions that are not Exceptions: no entry of the table matches; they are reported as errors (last resort) and re-raised
+    for kind in ("interrupt", "exit"):
+        for stage in (STAGES4 if ctx.tier == "thorough" else ("test", "cleanup")):
+            d, runs = cm.run_case(ctx, _script({stage: kind}))
+            problems = set()
+            for r in runs:
+                if cm.outcomes(r) != ["addError"]:
+                    problems.add(f"the outcomes are {cm.outcomes(r)}; expected one error")
+                if not (r.kind == "exc" and r.value[:2] == ("exc", cm.KINDS[kind][0])):
+                    problems.add(f"run() {'returns' if r.kind == 'val' else 'raises ' + repr(r.value)}; expected the {cm.KINDS[kind][0]} to be re-raised")
+            ctx.check("R-HANDLER-TABLE", f"{cm.KINDS[kind][0]} raised by {stage}: no handler entry matches; reported as an error and re-raised", case.node, bool(runs) and not problems,
+                      "; ".join(sorted(problems)) or "no path", examined=len(runs), construct=f"{Q}::maps {kind} in {stage}")
+    ctx.floor("R-HANDLER-TABLE", 15, "(kind, stage) pairs")
+
+
+def _with_handler(runs, entry, first):
+    """The runs after `case.exception_handlers.insert(0, entry)` / `.append(entry)` by the user."""
+    out = []
+    for r in runs:
+        if r.kind != "val":
+            out.append(r)
+            continue
+        v = r.state.get("self.exception_handlers", None)
+        key = heap_key(v) if is_handle(v) else "self.exception_handlers"
+        cur = r.state.get(key, None)
+        if not (isinstance(cur, tuple) and cur[:1] == ("tuple",)):
+            return None
+        new = ("tuple", entry) + tuple(cur[1:]) if first else cur + (entry,)
+        out.append(type(r)(r.kind, r.value, r.state.set(key, new)))
+    return out
+
+
+def check_user_handlers(ctx, case):
+    Q = f"{TESTCASE}:TestCase.exception_handlers"
+    H = cm.user("custom_handler")
+    cases = [
+        ("a handler for AssertionError put first", ("excclass", "AssertionError"), True, "fail", True),
+        ("a handler for a user exception class put first", ("excclass", "CustomError"), True, "custom", True),
+        ("a handler for a user exception class put first; another Exception raised", ("excclass", "CustomError"), True, "error", False),
+        ("a handler for a user exception class (an Exception) put last", ("excclass", "CustomError"), False, "custom", False),
+        ("a handler for SkipTest put last", ("excclass", "SkipTest"), False, "skip", False),
+    ]
+    for label, cls, first, kind, custom_wins in cases:
+        d, runs = cm.new_case(ctx, _script({"test": kind}))
+        runs = _with_handler(runs, ("tuple", cls, H), first)
+        problems = set()
+        if runs is None:
+            problems.add("exception_handlers is not a list the user can insert into")
+            runs = []
+        runs = d.call(runs, "run", [cm.RESULT])
+        d.done()
+        for r in runs:
+            called = [(pos, kw) for n, pos, kw in cm.events(r, ("user.custom_handler",))]
+            ocs = cm.outcomes(r)
+            if custom_wins:
+                if len(called) != 1 or ocs:
+                    problems.add(f"the user's handler is called {len(called)} time(s) and the built-in outcomes are {ocs}; expected the user's handler alone, once (it comes first in the list)")
+                elif len(called[0][0]) != 3 or called[0][0][0] != ("self",) or called[0][0][2][:2] != ("exc", cm.KINDS[kind][0]):
+                    problems.add(f"the user's handler is called with {called[0][0]!r}; expected (case, result, the exception)")
+            else:
+                if called or ocs != [cm.KINDS[kind][1]]:
+                    problems.add(f"the user's handler is called {len(called)} time(s) and the outcomes are {ocs}; expected {[cm.KINDS[kind][1]]} from the entry that precedes it in the list")
+        ctx.check("R-FIRST-MATCH", f"[{label}; the test raises {cm.KINDS[kind][0]}] the first entry of exception_handlers whose class matches reports", case.node, bool(runs) and not problems,
+                  "; ".join(sorted(problems)) or "no path", examined=len(runs), construct=f"{Q}::{label} / {kind}")
+
+
+def check_never_masked(ctx, case):
+    Q = f"{RUNTEST}:RunTest._run_prepared_result"
+    order = {s: i for i, s in enumerate(STAGES4)}
+    for first in STAGES4:
+        for later in STAGES4:
+            if order[later] < order[first] or (first == "setUp" and later in ("test", "tearDown")):
+                continue
+            problems = set()
+            n = 0
+            for bad in BAD:
+                for soft in (SOFT if ctx.tier == "thorough" or first == later else SOFT[:1]):
+                    scripts = []
+                    if first == later:
+                        scripts.append(_script({first: cm.multi(first, cm.raised(bad, first + "-1"), cm.raised(soft, first + "-2"))}))
+                        if first == "cleanup":
+                            # two cleanups: the one that runs first fails, the one that runs later skips
+                            s2 = _script({})
+                            s2["setUp"] = [("call", "addCleanup", [cm.user("cleanup_late")], []), ("call", "addCleanup", [cm.user("cleanup")], [])]
+                            s2["cleanup"] = [("raise", cm.raised(bad, "cleanup"))]
+                            s2["cleanup_late"] = [("raise", cm.raised(soft, "cleanup_late"))]
+                            scripts.append(s2)
+                    else:
+                        scripts.append(_script({first: bad, later: soft}))
+                    for script in scripts:
+                        d, runs = cm.run_case(ctx, script)
+                        n += len(runs)
+                        if not runs:
+                            problems.add("no path of run() was followed to its end")
+                        for r in runs:
+                            ocs = cm.outcomes(r)
+                            if len(ocs) != 1 or ocs[0] not in cm.UNSUCCESSFUL:
+                                problems.add(f"{cm.KINDS[bad][0]} then {cm.KINDS[soft][0]}: the outcomes are {ocs}")
+            same = first == later
+            ctx.check("R-NEVER-MASKED", f"a failure / error raised in {first}, then a skip / expected failure raised in {later}{' (one MultipleExceptions, or two cleanups)' if same else ''}: "
+                      "the outcome still makes the run unsuccessful", case.node, not problems,
+                      f"a failure or error raised in {first} is downgraded when {later} raises a skip or an expected failure afterwards ({'; '.join(sorted(problems))}): the outcome is selected "
+                      "from the last recorded exception alone", examined=n, construct=f"{Q}::failure from {first} masked by soft exception from {later}")
+    ctx.floor("R-NEVER-MASKED", 8, "ordered stage pairs")
+    # the other direction is fine and must stay so: a skip first, a failure later -> unsuccessful
+    for first, later in (("test", "tearDown"), ("test", "cleanup"), ("setUp", "cleanup")):
+        d, runs = cm.run_case(ctx, _script({first: "skip", later: "fail"}))
+        bad_ = [cm.outcomes(r) for r in runs if len(cm.outcomes(r)) != 1 or cm.outcomes(r)[0] not in cm.UNSUCCESSFUL]
+        ctx.check("R-NEVER-MASKED", f"a skip raised in {first}, then a failure raised in {later}: the run is unsuccessful", case.node, bool(runs) and not bad_, f"the outcomes are {bad_}",
+                  examined=len(runs), construct=f"{Q}::skip in {first} then failure in {later}")
 
 
 def run(ctx):
-    ctx.rule("R-SUCCESS-GUARD", "addSuccess is never delivered on a path where user code raised or a failure was forced")
-    ctx.rule("R-HANDLER-TABLE", "exception_handlers: no shadowing, Exception last, each handler reports the matching outcome once")
-    ctx.rule("R-FIRST-MATCH", "handlers are tried in list order; the first isinstance match wins")
-    ctx.rule("R-EXPECT-FORCES", "expectThat sets force_failure without raising; the forced failure is recorded before the success decision")
-    classes = ctx.classes
-    rt = classes.get(RUNTEST, "RunTest")
-    tc = classes.get(TESTCASE, "TestCase")
-    Q = f"{RUNTEST}:RunTest"
-
-    # ------------------------------------------------------------------ success guard (abstract run with extra monitors)
-    class Dom(runmodel.RunDomain):
-        def _result_event(self, m, call, st):
-            out = super()._result_event(m, call, st)
-            if m == "addSuccess":
-                out = [type(r)(r.kind, r.value, r.state.set("ev.success", min(r.state.get("ev.success", 0) + 1, 2))) if r.kind == "val" or True else r for r in out]
-            return out
-
-        def _inline_call(self, interp, f, call, st, fr, skip_self):
-            if f.name == "_got_user_exception" and fr.name != "_got_user_exception":
-                st = st.set("ev.raised", 1)
-            return super()._inline_call(interp, f, call, st, fr, skip_self)
-
-    owner, f = classes.resolve_method(rt, "_run_prepared_result")
-    from ..absint import NOTNONE, Interp
-    dom = Dom(classes, rt, record_stages=False)
-    it = Interp(dom, max_depth=10 if ctx.tier == "quick" else 14)
-    res = it.analyze(f, {"result": NOTNONE}, runmodel.initial_state(), receiver=rt, name="_run_prepared_result")
-    for fn in it.functions:
-        ctx.analysed(fn)
-    ctx.stats["states"] += it.steps
-    sigs = {}
-    for r in res:
-        d = r.state.as_dict()
-        key = (r.kind == "val" or r.value == RERAISE, d.get("ev.success", 0), d.get("ev.raised", 0), d.get("ev.outcomes", 0), d.get("ev.phantom", 0))
-        sigs.setdefault(key, r)
-    for (clean, success, raised, outcomes, phantom), r in sorted(sigs.items(), key=lambda kv: repr(kv[0])):
-        label = f"exit [{'normal' if clean else 'framework exception'} success={success} user-raised={raised} outcomes={outcomes}{' unrecorded-sentinel' if phantom else ''}]"
-        if not clean:
-            # a result method or an addOnException handler raised: documented to abort the
-            # run; what is reported on the way out is outside the property's statement
-            if success >= 1 and raised == 1:
-                ctx.note("observation (not a violation): when an addOnException handler raises while a stage's failure is being "
-                         "recorded, the remaining stages still run and addSuccess can be delivered before the handler's exception propagates")
-            continue
-        ok = not (success >= 1 and raised == 1) and success <= 1
-        ctx.check("R-SUCCESS-GUARD", label, own_method(ctx, RUNTEST, "RunTest", "_run_core"), ok,
-                  "a run can report addSuccess although a stage raised (or the failure was forced): a failure would be masked as success",
-                  path=runmodel.fmt_log(r.state), construct=f"{Q}._run_core::success={success} raised={raised}")
-        if clean and raised == 1 and not phantom:
-            ctx.check("R-SUCCESS-GUARD", label + " reports through a handler", rt.node, outcomes == 1 and success == 0,
-                      "a run in which user code raised ends without exactly one non-success outcome",
-                      path=runmodel.fmt_log(r.state), construct=f"{Q}::raised-outcomes={outcomes}-success={success}")
-    ctx.floor("R-SUCCESS-GUARD", 5, "abstract exit signatures")
-
-    # ------------------------------------------------------------------ failures are never masked by what a later stage raises
+    ctx.rule("R-SUCCESS-GUARD", "addSuccess is reported iff no stage raised and no failure was forced")
+    ctx.rule("R-HANDLER-TABLE", "one exception of each kind (and of subclasses) in each stage gives the outcome its type maps to")
+    ctx.rule("R-FIRST-MATCH", "handlers are tried in list order; user-inserted entries take part in that order")
+    ctx.rule("R-EXPECT-FORCES", "expectThat never raises; a mismatch (force_failure) makes the finished test a failure")
     ctx.rule("R-NEVER-MASKED", "once a failure / error was raised, a later skip / expected failure cannot select the outcome")
-    kres, kint = runmodel.analyse_kinds(ctx, rt, kinds=("bad", "soft") if ctx.tier == "quick" else runmodel.KINDS)
-    pairs = {}
-    n_fail_exits = 0
-    for r in kres:
-        st_ = r.state
-        framework = r.kind == "exc" and isinstance(r.value, tuple) and r.value and r.value[0] == "framework"
-        if framework or st_.get("ev.phantom", 0):
-            continue
-        firsts = [x for x in (st_.get("exc.bad", None), st_.get("exc.base", None)) if x is not None]
-        if not firsts:
-            continue
-        n_fail_exits += 1
-        # the exception handed to a handler (absent when a non-Exception propagated instead)
-        last = st_.get("ev.dispatched", None) or ("propagates", st_.get("exc.last", ("?", "?"))[1])
-        masked = last[0] == "soft"
-        for first in firsts:
-            pairs.setdefault((first, last[1], masked), r)
-    for (first, last_stage, masked), r in sorted(pairs.items(), key=repr):
-        ctx.check("R-NEVER-MASKED", f"failure/error raised in {first}, outcome selected by the exception from {last_stage}: {'MASKED by a skip / expected failure' if masked else 'outcome stays failing'}",
-                  own_method(ctx, RUNTEST, "RunTest", "_run_prepared_result"), not masked,
-                  f"a failure or error raised in {first} is downgraded when {last_stage} raises a skip or an expected failure afterwards: the outcome is selected from the last "
-                  "recorded exception alone, so the run is reported as skip / expected failure",
-                  path=runmodel.fmt_log(r.state), construct=f"{Q}._run_prepared_result::failure from {first} masked by soft exception from {last_stage}")
-    ctx.check("R-NEVER-MASKED", f"{n_fail_exits} abstract exits with a failing exception recorded examined", rt.node, n_fail_exits >= 10, "implausibly few exits", examined=len(kres),
-              construct=f"{Q}::kind-exits")
-
-    # ------------------------------------------------------------------ handler table
-    init = own_method(ctx, TESTCASE, "TestCase", "__init__")
-    table = None
-    for n in walk_shallow(init, include_self=False):
-        if isinstance(n, ast.Assign) and dotted(n.targets[0]) == "self.exception_handlers" and isinstance(n.value, ast.List):
-            table = n
-    if table is None:
-        raise AnalysisError("anchor vanished: TestCase.__init__ no longer builds self.exception_handlers as a list display")
-    entries = []
-    for e in table.value.elts:
-        if not (isinstance(e, ast.Tuple) and len(e.elts) == 2):
-            raise AnalysisError("exception_handlers entry is not a (class, handler) pair")
-        entries.append((e.elts[0], e.elts[1]))
-
-    def resolve_class_expr(expr):
-        """-> (display name, chain of base names up to BaseException)"""
-        ch = attr_chain(expr)
-        name = None
-        if ch and ch[0] == "self" and len(ch) == 2:
-            o = classes.resolve_attr_owner(tc, ch[1])
-            if o is not None:
-                v = o.attrs.get(ch[1])
-                name = dotted(v) if v is not None else None
-        elif ch and len(ch) == 1:
-            name = ch[0]
-        if name is None:
-            return norm(expr), None
-        chain = [name]
-        cur = name
-        for _ in range(8):
-            if cur in BUILTIN_BASES:
-                nxt = BUILTIN_BASES[cur]
-            else:
-                ci = classes.lookup(tc.module, cur) or (classes.find(cur) or [None])[0]
-                nxt = None
-                if ci is not None and ci.base_exprs:
-                    nxt = dotted(ci.base_exprs[0])
-                    nxt = nxt.split(".")[-1] if nxt else None
-                elif cur == "SkipTest":
-                    nxt = "Exception"
-            if nxt is None:
-                break
-            chain.append(nxt)
-            cur = nxt
-        return name, chain
-
-    resolved = []
-    for cexpr, hexpr in entries:
-        name, chain = resolve_class_expr(cexpr)
-        resolved.append((name, chain, cexpr, hexpr))
-        ctx.check("R-HANDLER-TABLE", f"entry class {norm(cexpr)} resolves ({' < '.join(chain) if chain else '?'})", cexpr, chain is not None and chain[-1] == "BaseException",
-                  f"cannot resolve the class hierarchy of {norm(cexpr)}", construct=f"{TESTCASE}:TestCase.__init__::entry {norm(cexpr)}")
-    for i, (name, chain, cexpr, hexpr) in enumerate(resolved):
-        if not chain:
-            continue
-        shadow = [resolved[j][0] for j in range(i) if resolved[j][0] in chain[1:] or resolved[j][0] == name]
-        ctx.check("R-HANDLER-TABLE", f"entry {i} ({name}) is not shadowed by an earlier entry", cexpr, not shadow,
-                  f"{name} comes after its superclass {shadow}: its handler can never run, e.g. a skip would be reported as an error",
-                  construct=f"{TESTCASE}:TestCase.__init__::shadow {name}")
-    last = resolved[-1][0] if resolved else None
-    ctx.check("R-HANDLER-TABLE", "last entry is exactly Exception", table, last == "Exception",
-              f"the catch-all entry is {last}: with BaseException, KeyboardInterrupt would be handled and not re-raised; with anything narrower, ordinary errors would abort the run",
-              construct=f"{TESTCASE}:TestCase.__init__::last-entry")
-    want = [("SkipTest", "_report_skip"), ("AssertionError", "_report_failure"), ("_ExpectedFailure", "_report_expected_failure"),
-            ("_UnexpectedSuccess", "_report_unexpected_success"), ("Exception", "_report_error")]
-    got = [(name, (dotted(h) or "").split(".")[-1]) for name, chain, c, h in resolved]
-    for w in want:
-        ctx.check("R-HANDLER-TABLE", f"{w[0]} -> {w[1]}", table, w in got, f"handler table maps {dict(got).get(w[0])} to {w[0]} (documented: {w[1]})",
-                  construct=f"{TESTCASE}:TestCase.__init__::map {w[0]}")
-    for hname, result_method in KIND_OF_HANDLER.items():
-        hf = tc.own_method(hname)
-        if hf is None:
-            raise AnalysisError(f"anchor vanished: TestCase.{hname}")
-        ctx.analysed(hf)
-        rp = hf.args.args[1].arg if len(hf.args.args) > 1 else "result"
-        calls = [c for c in walk_shallow(hf, include_self=False) if isinstance(c, ast.Call) and isinstance(c.func, ast.Attribute) and dotted(c.func.value) == rp]
-        names = [c.func.attr for c in calls]
-        g = cfg_of(ctx, hf)
-        lv = live_nodes(g)
-        hit = nodes_calling(g, lambda c: isinstance(c.func, ast.Attribute) and dotted(c.func.value) == rp and c.func.attr == result_method, lv)
-        once = len(hit) == 1 and g.escape_path([g.entry], set(hit), targets=[g.exit_return]) is None
-        ctx.check("R-HANDLER-TABLE", f"TestCase.{hname} reports {result_method} exactly once", hf, names == [result_method] and once,
-                  f"{hname} calls {names} on the result (must be exactly one {result_method} on every path)",
-                  construct=f"{TESTCASE}:TestCase.{hname}::reports")
-    run_f = own_method(ctx, TESTCASE, "TestCase", "run")
-    lr = [kw_value(c, "last_resort") for c in walk_shallow(run_f, include_self=False) if isinstance(c, ast.Call) and has_kw(c, "last_resort")]
-    ctx.check("R-HANDLER-TABLE", "last_resort is _report_error", run_f, bool(lr) and all(dotted(x) == "self._report_error" for x in lr),
-              "non-Exception errors would not be reported as errors before being re-raised", construct=f"{TESTCASE}:TestCase.run::last_resort")
-    onex = own_method(ctx, TESTCASE, "TestCase", "onException")
-    quiet = None
-    for n in walk_shallow(onex, include_self=False):
-        if isinstance(n, ast.Compare) and isinstance(n.ops[0], (ast.NotIn, ast.In)):
-            elts = literal_elements(n.comparators[0], n)
-            if elts is not None:
-                quiet = {resolve_class_expr(e)[0] for e in elts}
-    ctx.check("R-HANDLER-TABLE", "onException suppresses tracebacks for exactly the three signal classes", onex,
-              quiet == {"SkipTest", "_UnexpectedSuccess", "_ExpectedFailure"},
-              f"no-traceback list is {sorted(quiet) if quiet else quiet}", construct=f"{TESTCASE}:TestCase.onException::quiet-list")
-
-    # ------------------------------------------------------------------ first match / all considered
-    rpr = own_method(ctx, RUNTEST, "RunTest", "_run_prepared_result")
-    # decided on the abstract run with a symbolic three-entry table (any code shape: loop, helper, two passes)
-    for label, suffix, ok, msg, r in runmodel.dispatch_verdicts(ctx, rt):
-        ctx.check("R-FIRST-MATCH", label, rpr, ok,
-                  "the dispatch does not report through the first entry of self.handlers whose class matches (user-inserted handlers would lose precedence): " + msg,
-                  path=runmodel.fmt_log(r.state) if r is not None else None, construct=f"{Q}._run_prepared_result::{suffix}")
-    ctx.floor("R-FIRST-MATCH", 20, "table relations")
-    init_rt = own_method(ctx, RUNTEST, "RunTest", "__init__")
-    ok = any(isinstance(n, ast.Assign) and dotted(n.targets[0]) == "self.handlers" and "handlers" in norm(n.value) and "sorted" not in norm(n.value) and "reversed" not in norm(n.value)
-             for n in walk_shallow(init_rt, include_self=False))
-    ctx.check("R-FIRST-MATCH", "RunTest keeps the handler list in the order given", init_rt, ok, "RunTest.__init__ reorders the handlers", construct=f"{Q}.__init__::order")
-    # ------------------------------------------------------------------ expectThat forces failure
-    # expectThat itself, on an abstract run with the matcher's verdict symbolic (shared with C07 R-ASSERT-IFF)
-    from .c07 import verdict_outcomes
-    et, outs = verdict_outcomes(ctx, "expectThat")
-    for verdict, kind, forced in sorted(outs, key=repr):
-        if verdict == "?":
-            ok, msg = False, "a path of expectThat returns without having consulted matcher.match()"
-        else:
-            ok = kind == "val" and (forced == 1) == (verdict == "mismatch")
-            msg = f"expectThat with verdict {verdict}: {'raises' if kind == 'exc' else 'returns'}, force_failure {'set' if forced else 'not set'} (a mismatch must set the flag and not raise; a match must do neither)"
-        ctx.check("R-EXPECT-FORCES", f"expectThat: verdict={verdict} -> {'raise' if kind == 'exc' else 'return'}{' +force_failure' if forced else ''}", et, ok, msg,
-                  construct=f"{TESTCASE}:TestCase.expectThat::verdict={verdict} kind={kind} forced={forced}")
-    ctx.check("R-EXPECT-FORCES", "expectThat: both verdicts explored", et, {v for v, _, _ in outs} >= {"none", "mismatch"}, f"explored {sorted(outs)}", construct=f"{TESTCASE}:TestCase.expectThat::explored")
-    # the runner side, decided on the abstract run (no particular statement layout is required):
-    # whenever the flag is set -- or may be set because nothing examined it after the last user
-    # stage -- the run ends unsuccessfully
-    rc = own_method(ctx, RUNTEST, "RunTest", "_run_core")
-    n_set = 0
-    for label, suffix, ok, r in runmodel.force_verdicts(kres):
-        n_set += label.startswith("force_failure set")
-        ctx.check("R-EXPECT-FORCES", label, rc, ok,
-                  "an expectThat mismatch (force_failure) does not make the finished test fail on this path: the run ends with "
-                  "a success, a skip or an expected failure", path=runmodel.fmt_log(r.state), construct=f"{Q}._run_core::{suffix}")
-    ctx.check("R-EXPECT-FORCES", "the abstract run reads force_failure and finds it set on some path", rc, n_set >= 1,
-              "no path of the run examines case.force_failure", construct=f"{Q}._run_core::force-read")
-    from .common import module_function
-    rf = module_function(ctx, RUNTEST, "_raise_force_fail_error")
-    ok = any(isinstance(n, ast.Raise) and n.exc is not None and "AssertionError" in norm(n.exc) for n in rf.body)
-    ctx.check("R-EXPECT-FORCES", "the forced failure is an AssertionError (maps to failure)", rf, ok, "_raise_force_fail_error does not raise AssertionError", construct=f"{RUNTEST}:_raise_force_fail_error::kind")
-    ctx.assume("isinstance/issubclass semantics of the exception classes follow the parsed class hierarchy")
+    case = cm.case_class(ctx)
+    check_success_guard(ctx, case)
+    check_type_mapping(ctx, case)
+    check_user_handlers(ctx, case)
+    check_forced(ctx, case)
+    check_never_masked(ctx, case)
+    ctx.assume("exception classes of the user are subclasses of the classes the script names and of nothing else the code mentions")
